@@ -172,6 +172,9 @@ func (nb *nativeBuild) confirm(rf *ReplayFile, path string, tries int) *NativeRe
 					r.Reproduced = true
 				}
 			}
+			if strings.HasSuffix(rf.Site, ".noexit") && r.Panic == "" && !r.TimedOut && r.Exit != 0 && !strings.Contains(r.Output, "VERIF-DONE") {
+				r.Reproduced = true // the process really exited
+			}
 		case "panic":
 			r.Reproduced = r.Panic != ""
 		case "exit":
